@@ -623,6 +623,9 @@ func (c *Ctx) wrapsIf(e ast.Expr) *Term {
 			if ce, ok := fr.fi.Spec.WrapsIf[txt]; ok {
 				return c.specEval(ce, c.st, nil, nil)
 			}
+			if ce, ok := fr.fi.Spec.WrapsIf["*"]; ok {
+				return c.specEval(ce, c.st, nil, nil)
+			}
 		}
 	}
 	return nil
@@ -631,7 +634,7 @@ func (c *Ctx) wrapsIf(e ast.Expr) *Term {
 func (c *Ctx) wraps(e ast.Expr) bool {
 	txt := exprText(e)
 	for _, fr := range c.x.frames {
-		if fr.fi != nil && fr.fi.Spec != nil && fr.fi.Spec.Wraps[txt] {
+		if fr.fi != nil && fr.fi.Spec != nil && (fr.fi.Spec.Wraps[txt] || fr.fi.Spec.Wraps["*"]) {
 			return true
 		}
 	}
